@@ -15,7 +15,7 @@ Definition no_cont (b : bytes) : Prop :=
 
 Lemma no_cont_nospan a b : no_cont b -> ~ spans a b.
 Proof.
-  intros Hn (a' & p & q & b' & _ & -> & Hp & Hq & (ds & _ & Hds & Heq)).
+  intros Hn (a' & p & q & b' & _ & -> & Hp & Hq & (ds & Hds & Heq)).
   destruct q as [|y q]; [congruence|]. cbn [app no_cont] in Hn.
   destruct p as [|e p]; [congruence|]. cbn [app] in Heq. injection Heq as _ Heq.
   assert (Hin : In y (c_lbr :: ds ++ [c_m])) by (rewrite <- Heq; apply in_or_app; right; now left).
